@@ -76,7 +76,7 @@ PROPS = {
         "sanitizers": ["miri_topdown"],
         "scale": {"quick": 1, "thorough": 40},
         "floors": {
-            "quick": {"compilations": 5000, "conditionings": 50000, "compilations_in_a_used_builder": 1200, "builder_literals": 10000, "compilations_over_spread_labels": 200, "witness_compilations": 4,
+            "quick": {"compilations": 5000, "conditionings": 50000, "compilations_in_a_used_builder": 1200, "builder_literals": 10000, "compilations_over_spread_labels": 200, "witness_compilations": 5,
                       "compilations_with_truncated_hash": 600, "component_cache_hash_conflicts": 400},
             "thorough": {"compilations": 200000},
         },
@@ -226,6 +226,7 @@ PROPS = {
         "assumptions": ASSUME_COMMON + ["the configured order lists every variable (formula and weight-file) exactly once; CNFs have at least one clause and no empty clause (S9)"],
     },
     "C18": {
+        "isolated": {"handle_reuse": 12},
         "profiles": {"quick": ["mon"], "thorough": ["mon", "monrel"]},
         "scale": {"quick": 1, "thorough": 30},
         "floors": {
